@@ -667,6 +667,29 @@ func replayMain(args []string) int {
 	if strings.Contains(args[0], "ks-") || strings.Contains(string(bz[:min(len(bz), 200)]), `"engine": "ks"`) {
 		return replayKS(bz)
 	}
+	if base := filepath.Base(args[0]); strings.HasPrefix(base, "race-C20-") {
+		// the -race sub-check runs real goroutines: what is replayed is its seed (workload and query mix), up to three times;
+		// a data race or a broken oracle in the code shows again, the interleaving that exposed it is not under control
+		var seed uint64
+		fmt.Sscanf(strings.TrimPrefix(base, "race-C20-"), "%d", &seed)
+		scratch, err := os.MkdirTemp("", "panasim-racereplay-")
+		if err != nil {
+			return 2
+		}
+		defer os.RemoveAll(scratch)
+		for i := 0; i < 3; i++ {
+			_, nviol, code := racePart(seed, "quick", scratch)
+			if code == 2 {
+				return 2
+			}
+			if nviol > 0 {
+				fmt.Println("REPLAY-SAME-CLASS (race sub-check, attempt", i+1, ")")
+				return 1
+			}
+		}
+		fmt.Println("REPLAY-NOT-REPRODUCED: three runs of the race sub-check with this seed showed nothing")
+		return 0
+	}
 	var s Script
 	if err := json.Unmarshal(bz, &s); err != nil {
 		fmt.Println("bad replay file:", err)
